@@ -126,7 +126,7 @@ func okCount(h *History, kinds ...string) int {
 var ProfileC01 = &Profile{
 	MultiMsg: true,
 	ID:       "C01", Name: "amm-mixed", Weights: mixedWeights(), MinBlocks: 5, MaxBlocks: 40, MaxTxs: 5,
-	Spec: withSkew(specDefault), Check: CheckC01, PreBlock: govModules("amm", "perpetual", "leveragelp"),
+	Spec: withPoolPricedElys(withModestUser(withSkew(specDefault))), Check: CheckC01, PreBlock: govModules("amm", "perpetual", "leveragelp"),
 	Rule: "history with >=2 writer kinds on pools (amm swap/join/exit plus perpetual or leveragelp) and >=10 successful pool-mutating txs",
 	NonTrivial: func(h *History) bool {
 		amm := okCount(h, "amm.swap_in", "amm.swap_out", "amm.swap_in_2hop", "amm.swap_out_2hop", "amm.swap_by_denom", "amm.join", "amm.exit")
@@ -152,7 +152,7 @@ func withWeights(base map[string]int, over map[string]int) map[string]int {
 
 var ProfileC02 = &Profile{
 	MultiMsg: true,
-	ID:       "C02", Name: "shares", MinBlocks: 5, MaxBlocks: 40, MaxTxs: 5, Spec: specDefault, Check: CheckC02, PreBlock: govModules("amm", "leveragelp"),
+	ID:       "C02", Name: "shares", MinBlocks: 5, MaxBlocks: 40, MaxTxs: 5, Spec: withPoolPricedElys(withModestUser(specDefault)), Check: CheckC02, PreBlock: govModules("amm", "leveragelp"),
 	Weights: withWeights(mixedWeights(), map[string]int{"amm.join": 14, "amm.exit": 14, "leveragelp.open": 10, "leveragelp.close": 8, "leveragelp.close_positions": 3, "perpetual.open": 2, "perpetual.close": 2,
 		// the commitment module's own messages act on the same ledger entries (they must refuse pool shares)
 		"commitment.unstake": 4, "commitment.uncommit": 3, "commitment.stake": 1, "commitment.commit_claimed": 1}),
@@ -512,7 +512,7 @@ func c12ExtraOps(h *History, g *G) []*Op {
 
 var ProfileC12 = &Profile{
 	MultiMsg: true,
-	ID:       "C12", Name: "commitments", MinBlocks: 5, MaxBlocks: 40, MaxTxs: 5, Spec: specLending, Check: CheckC12, ExtraOps: c12ExtraOps,
+	ID:       "C12", Name: "commitments", MinBlocks: 5, MaxBlocks: 40, MaxTxs: 5, Spec: withPoolPricedElys(specLending), Check: CheckC12, ExtraOps: c12ExtraOps,
 	Weights: map[string]int{"amm.join": 12, "amm.exit": 12, "stablestake.bond": 6, "stablestake.unbond": 5, "leveragelp.open": 6, "leveragelp.close": 5, "leveragelp.close_positions": 5, "amm.create_pool": 2,
 		"masterchef.claim": 10, "commitment.commit_claimed": 8, "commitment.uncommit": 8, "commitment.stake": 5, "commitment.unstake": 4, "estaking.withdraw_rewards": 2, "commitment.vest_liquid": 3, "commitment.vest": 5, "commitment.cancel_vest": 3, "commitment.claim_vesting": 3, "commitment.vest_now": 1,
 		"oracle.feed_price": 4, "amm.swap_in": 6},
